@@ -18,7 +18,7 @@ import common
 
 PKG, TEST, NAME = "./ledger", "TestVerifC13", "c13"
 HARNESS = {"pkg": PKG, "test": TEST, "name": NAME}
-QUERIES = ("q", "qa", "circ", "top", "voters")
+QUERIES = ("q", "qa", "circ", "top", "voters", "lockcirc")
 HARD = ("PANIC", "err other", "err stale-db", "err overflow", "bad-op", "err no-case", "err totals")
 
 
@@ -80,6 +80,10 @@ def spec_verdict(case, op, a, s):
         return None
     if a == s:
         return None
+    if k == "lockcirc":
+        if a.startswith("err locked"):
+            return None   # refusing while the DB is locked is fine; a wrong stake is not
+        return "OnlineCirculation(%d, %s) asked while the tracker DB is locked answers %s, the history implies %s (the failed expired-accounts query was taken for an empty result)" % (r, d.get("v"), a[:80], s[:80])
     if a.startswith("err"):
         if s.startswith("err"):
             return None if a == s or not in_window(case, r) else "wrong refusal %s (history: %s)" % (a, s)
@@ -120,6 +124,20 @@ def run(ctx, replay_ops=None):
         "variant: all accounts, circulation and top-N at rounds inside (and sometimes just outside) the lookback window with vote rounds at "
         "expiry boundaries, the voters snapshots, and at the end a sweep over the whole window. A case is non-trivial when it has more than "
         "MaxBalLookback blocks, an account changes its online status, and (for variants > 0) the DB round advances; distinct = distinct op sequences")
+    if replay_ops is None:
+        # directed corpus first: the circulation is asked while the tracker DB is locked by an open write transaction
+        cdir = os.path.join(os.path.dirname(os.path.dirname(os.path.abspath(__file__))), "corpus", "C13")
+        cops = []
+        if os.path.isdir(cdir):
+            for fn in sorted(os.listdir(cdir)):
+                if fn.endswith(".ops"):
+                    cops += [l for l in open(os.path.join(cdir, fn)).read().splitlines() if l.strip()]
+        if cops:
+            one_run(ctx, {}, cops, corpus=True)
+    one_run(ctx, env, replay_ops)
+
+
+def one_run(ctx, env, replay_ops, corpus=False):
     e = dict(env)
     if replay_ops is not None:
         rp = os.path.join(ctx.work, NAME + ".replay")
@@ -170,7 +188,7 @@ def run(ctx, replay_ops=None):
             if len(samples) < 6 and len(case_sigs) % 17 == 1:
                 samples.append(" ; ".join(case_lines)[:400])
 
-    def report(kind, what, i, extra=None, found=True):
+    def report(kind, what, i, extra=None, found=True, match_key=None):
         if reported[kind] >= 3 or (case is not None and (kind, case.start) in bad_cases):
             return
         reported[kind] += 1
@@ -181,7 +199,7 @@ def run(ctx, replay_ops=None):
                "spec_out": spec[i][:2000], "model_out": model[i][:2000], "harness": HARNESS}
         if extra:
             rep.update(extra)
-        ctx.violation(what, rep, found_input=found)
+        ctx.violation(what, rep, found_input=found, match_key=match_key)
 
     for i, (op, a, s, m) in enumerate(zip(ops, impl, spec, model)):
         f = op.split()
@@ -254,7 +272,7 @@ def run(ctx, replay_ops=None):
         # ---- the history oracle
         msg = spec_verdict(case, op, a, s)
         if msg:
-            report("spec", msg, i)
+            report("spec", msg, i, match_key={"kind": "expired-query-error-swallowed"} if k == "lockcirc" else None)
         # ---- metamorphic monitor on the implementation alone
         if k == "voters" and a == "none":
             continue
@@ -285,6 +303,8 @@ def run(ctx, replay_ops=None):
     dist["cases_distinct"] = dist.get("cases_distinct", 0) + len(case_sigs)
     for kk, v in stats.items():
         dist[kk] = dist.get(kk, 0) + v
+    if corpus:
+        dist["corpus_lines"] = dist.get("corpus_lines", 0) + len(ops)
     if replay_ops is None and stats["metamorphic-pairs"] == 0:
         ctx.tie_failures.append("no metamorphic pair was produced")
 
